@@ -16,7 +16,7 @@ S_E = "pyqmc/observables/ewald2d.py:Ewald.energy"
 
 def lattices2d(rng, thorough):
     a = float(rng.uniform(2.5, 5.0))
-    Lz = 60.0
+    Lz = 160.0
     out = [("square", np.array([[a, 0, 0], [0, a, 0], [0, 0, Lz]])),
            ("hexagonal", np.array([[a, 0, 0], [-a / 2, a * math.sqrt(3) / 2, 0], [0, 0, Lz]])),
            ("oblique", np.array([[a, 0, 0], [0.37 * a, 1.2 * a, 0], [0, 0, Lz]])),
@@ -70,6 +70,12 @@ def check(ck):
             frac[0, :, :2] = frac[0, :, :2] * 5 - 2.5  # outside the cell in the plane
             epos = frac @ lat
             epos[:, :, 2] = ck.rng.normal(size=(nconf, ne)) * ck.rng.choice([0.0, 0.7, 2.5])
+            if rep == 2:
+                # a bilayer: two sheets several in-plane cell heights apart (still far below half the third lattice vector), electrons on both
+                hgt = float(np.min(1 / np.linalg.norm(np.linalg.inv(lat[:2, :2]).T, axis=1)))
+                D = float(ck.rng.uniform(5.5, 9.0)) * hgt
+                apos[:, 2] = np.where(np.arange(nat) % 2 == 0, 0.0, D) + ck.rng.normal(size=nat) * 0.2
+                epos[:, :, 2] = np.where(ck.rng.random((nconf, ne)) < 0.5, 0.0, D) + ck.rng.normal(size=(nconf, ne)) * 0.3
             cell = FakeCell(lat, apos, Z, (ne - ne // 2, ne // 2))
             inp = {"lattice": name, "lattice_vectors": lat.tolist(), "ion_charges": Z.tolist(), "ions": apos.tolist(), "nelec": ne, "electrons": epos.tolist()}
             def run(scaling=5.0, gmax=18):
